@@ -441,6 +441,31 @@ enum End {
     Panic,
 }
 
+/// the entry of `d` whose name is `name` (exactly, or for ASCII names ignoring case) and which is of the wanted kind, found by iterating
+#[cfg(feature = "has_alloc")]
+fn entry_named<'a>(d: &FDir<'a>, name: &str, want_dir: bool) -> Option<fatfs::DirEntry<'a, SimDevice, Clock, Oem>> {
+    if name.is_empty() || name.contains('/') {
+        return None;
+    }
+    for e in d.iter() {
+        match e {
+            Ok(e) => {
+                let n = e.file_name();
+                if e.is_dir() == want_dir && (n == name || (name.is_ascii() && n.eq_ignore_ascii_case(name))) {
+                    return Some(e);
+                }
+            }
+            Err(_) => return None,
+        }
+    }
+    None
+}
+
+#[cfg(not(feature = "has_alloc"))]
+fn entry_named<'a>(_d: &FDir<'a>, _name: &str, _want_dir: bool) -> Option<fatfs::DirEntry<'a, SimDevice, Clock, Oem>> {
+    None
+}
+
 fn sarg<'j>(op: &'j Value, k: &str) -> &'j str {
     op.get(k).and_then(Value::as_str).unwrap_or("")
 }
@@ -494,7 +519,16 @@ impl<'a> Sess<'a> {
                 match self.dir_at(at) {
                     Err(e) => e,
                     Ok(d) => {
-                        let r = if name == "create_file" { d.create_file(path) } else { d.open_file(path) };
+                        // "via":"entry": the handle comes from DirEntry::to_file() of the listed entry with exactly this name
+                        // (same meaning as open_file; falls back to it when no entry is spelled that way)
+                        let via = if name == "open_file" && sarg(op, "via") == "entry" { entry_named(&d, path, false) } else { None };
+                        if via.is_some() {
+                            a.insert("via".into(), json!("entry"));
+                        }
+                        let r = match via {
+                            Some(e) => Ok(e.to_file()),
+                            None => if name == "create_file" { d.create_file(path) } else { d.open_file(path) },
+                        };
                         match r {
                             Ok(f) => {
                                 if !h.is_empty() {
@@ -517,7 +551,14 @@ impl<'a> Sess<'a> {
                 match self.dir_at(at) {
                     Err(e) => e,
                     Ok(d) => {
-                        let r = if name == "create_dir" { d.create_dir(path) } else { d.open_dir(path) };
+                        let via = if name == "open_dir" && sarg(op, "via") == "entry" { entry_named(&d, path, true) } else { None };
+                        if via.is_some() {
+                            a.insert("via".into(), json!("entry"));
+                        }
+                        let r = match via {
+                            Some(e) => Ok(e.to_dir()),
+                            None => if name == "create_dir" { d.create_dir(path) } else { d.open_dir(path) },
+                        };
                         match r {
                             Ok(nd) => {
                                 if !h.is_empty() {
